@@ -12,3 +12,12 @@ package auth
 //@   ensures bytes20(res) == -old(bytes20(p))                                        [@value]
 //@   ensures res == p                                                                [@value]
 //@   modifies p[:]                                                                   [@frame]
+
+// authDigest: Minecraft's signed hexadecimal SHA-1 (Java: new BigInteger(digest).toString(16)).
+// The digest itself and the hexadecimal rendering are not verified (sha_out() is the uninterpreted
+// digest, hex_in() the 20 bytes handed to the hexadecimal rendering); what is decided is the sign
+// logic around them: the rendered magnitude is the digest when its top bit is clear and its two's
+// complement negation when it is set, and the result starts with '-' exactly in the second case.
+//@ func authDigest(serverID, sharedSecret, publicKey) (res)
+//@   ensures hex_in() == ite(hi8(sha_out()) >= 128, -sha_out(), sha_out())          [@value]
+//@   ensures (len(res) > 0 && res[0] == 45) == (hi8(sha_out()) >= 128)               [@value]
